@@ -1,3 +1,580 @@
-import DuneVerif.Model.C05
+import DuneVerif.Proofs.C05Datatype
+/-!
+# C05 — Interface + buffered communication move each value to exactly its matches
+
+Property theorems about the model `DuneVerif/Model/C05.lean`, for **every** process count `P`, every
+decomposition (`System`: per process a source and a target index set, one object or two), every choice of
+`ignorePublic`, every pair of attribute sets `S`, `T` (arbitrary predicates), every payload geometry (`sz` =
+`sizeof(IndexedType)`, `blk g` = `CommPolicy::getSize` of the entry with global index `g`), every gather/scatter
+policy, every arrival order of the messages and every completion order reported by `MPI_Waitany`.
+
+Standing hypotheses (`Setting.OK`):
+* `WF`: every index set is in `ParallelIndexSet` order with every global index at most once (the property's
+  "decomposition of global indices"; DESIGN.md section 5, C04);
+* `0 < sz`;
+* `SizesByGlobal`: the number of elements communicated for an index is the same on both sides of a pair (it is
+  a function of the global index) — for `SizeOne` payloads `blk = fun _ => 1`.
+
+The remote index lists are *defined* as `remoteSpec` (what C04 proves about `RemoteIndices::rebuild`).
+MPI is trusted at the message level: a posted send and the matching posted receive (same pair, same size)
+complete; messages land in the receive buffer before their completion is reported.
+-/
 namespace DV.C05
+
+/-- everything that parameterises the communicators of one collective `build` -/
+structure Setting where
+  ign : Bool
+  S : Nat → Bool
+  T : Nat → Bool
+  sys : System
+  sz : Nat
+  csS : Nat → Nat → Nat
+  csT : Nat → Nat → Nat
+  blk : Int → Nat
+
+structure Setting.OK (s : Setting) : Prop where
+  wf : WF s.sys
+  sz : 0 < s.sz
+  sizes : SizesByGlobal s.sys s.csS s.csT s.blk
+
+/-- the interface of process `p` -/
+def Setting.iface (s : Setting) (p : Nat) : IfMap := interfaceOf s.ign s.S s.T s.sys p
+/-- the `BufferedCommunicator` of process `p` -/
+def Setting.comm (s : Setting) (p : Nat) : Comm := (netOf s.ign s.S s.T s.sys s.sz s.csS s.csT).comm p
+/-- the entries `p` sends to `q` / `q` receives from `p` in a forward communication, by the property's definition
+    (global index, attribute on the other process, local index, own attribute), ascending global index -/
+def Setting.sendL (s : Setting) (p q : Nat) : List RIdx := DV.C05.sendL s.ign s.S s.T s.sys p q
+def Setting.recvL (s : Setting) (q p : Nat) : List RIdx := DV.C05.recvL s.ign s.S s.T s.sys q p
+
+/-- roles exchanged: target index sets become sources, `T` becomes the source attribute set -/
+def Setting.swap (s : Setting) : Setting :=
+  { s with S := s.T, T := s.S, sys := s.sys.swap, csS := s.csT, csT := s.csS }
+
+theorem Setting.OK.swap {s : Setting} (h : s.OK) : s.swap.OK :=
+  ⟨swap_wf h.wf, h.sz, swap_sizes h.sizes⟩
+
+theorem Setting.OK.good {s : Setting} (h : s.OK) : (netOf s.ign s.S s.T s.sys s.sz s.csS s.csT).Good :=
+  netOf_good h.wf h.sz h.sizes
+
+/-! ## 1. The interface -/
+
+/-- **interface_spec.**  The send list of `p` for `q` consists of exactly the local indices of the own published
+    source entries whose attribute is in `S` and whose global index has a published target entry on `q` with
+    attribute in `T`; the receive list of exactly those target entries with attribute in `T` that have a source
+    entry on `q` with attribute in `S`; both in ascending global index order, each global index once.  (The process
+    itself is a neighbour only with two index sets.) -/
+theorem interface_spec (s : Setting) (h : s.OK) (p q : Nat) :
+    ((s.iface p).get q).1.idx = (s.sendL p q).map (·.l) ∧
+    ((s.iface p).get q).2.idx = (s.recvL p q).map (·.l) ∧
+    (∀ x, x ∈ s.sendL p q ↔ admits s.sys p q ∧
+        ∃ a ∈ published s.ign (s.sys.rank p).src, ∃ b ∈ published s.ign (s.sys.rank q).tgtSet,
+          b.g = a.g ∧ s.S a.a = true ∧ s.T b.a = true ∧ x = ⟨a.g, b.a, a.l, a.a⟩) ∧
+    (∀ x, x ∈ s.recvL p q ↔ admits s.sys p q ∧
+        ∃ a ∈ published s.ign (s.sys.rank p).tgtSet, ∃ b ∈ published s.ign (s.sys.rank q).src,
+          b.g = a.g ∧ s.T a.a = true ∧ s.S b.a = true ∧ x = ⟨a.g, b.a, a.l, a.a⟩) ∧
+    ((s.sendL p q).map (·.g)).Pairwise (· < ·) ∧ ((s.recvL p q).map (·.g)).Pairwise (· < ·) := by
+  have hget := get_interfaceOf s.ign s.S s.T s.sys p q
+  refine ⟨?_, ?_, ?_, ?_, ?_, ?_⟩
+  · simp only [Setting.iface, Setting.sendL, sendL, hget]
+    by_cases ha : admits s.sys p q <;> simp [ha, infoOf_eq, sendEntries, Info.empty]
+  · simp only [Setting.iface, Setting.recvL, recvL, hget]
+    by_cases ha : admits s.sys p q <;> simp [ha, infoOf_eq, recvEntries, Info.empty]
+  · intro x
+    simp only [Setting.sendL, sendL]
+    by_cases ha : admits s.sys p q
+    · simp only [ha, if_true, true_and, sendEntries, sendSpec, List.mem_filter,
+        mem_joinSpec ((h.wf.tgt q).published s.ign)]
+      constructor
+      · rintro ⟨⟨a, ha', b, hb, hg, rfl⟩, hp⟩
+        refine ⟨a, ha', b, hb, hg, ?_, ?_, rfl⟩
+        · simp only [passes, if_true] at hp
+          cases hT : s.T b.a <;> simp [hT] at hp ⊢; exact hp
+        · simp only [passes, if_true] at hp
+          cases hT : s.T b.a <;> simp [hT] at hp ⊢
+      · rintro ⟨a, ha', b, hb, hg, hS, hT, rfl⟩
+        exact ⟨⟨a, ha', b, hb, hg, rfl⟩, by simp [passes, hS, hT]⟩
+    · simp [ha]
+  · intro x
+    simp only [Setting.recvL, recvL]
+    by_cases ha : admits s.sys p q
+    · simp only [ha, if_true, true_and, recvEntries, recvSpec, List.mem_filter,
+        mem_joinSpec ((h.wf.src q).published s.ign)]
+      constructor
+      · rintro ⟨⟨a, ha', b, hb, hg, rfl⟩, hp⟩
+        refine ⟨a, ha', b, hb, hg, ?_, ?_, rfl⟩
+        · simp only [passes, Bool.false_eq_true, if_false] at hp
+          cases hS : s.S b.a <;> simp [hS] at hp ⊢; exact hp
+        · simp only [passes, Bool.false_eq_true, if_false] at hp
+          cases hS : s.S b.a <;> simp [hS] at hp ⊢
+      · rintro ⟨a, ha', b, hb, hg, hT, hS, rfl⟩
+        exact ⟨⟨a, ha', b, hb, hg, rfl⟩, by simp [passes, hS, hT]⟩
+    · simp [ha]
+  · simp only [Setting.sendL, sendL]
+    by_cases ha : admits s.sys p q
+    · simp only [ha, if_true]; exact joinSpec_globals_sorted ((h.wf.src p).published s.ign) _ _
+    · simp [ha]
+  · simp only [Setting.recvL, recvL]
+    by_cases ha : admits s.sys p q
+    · simp only [ha, if_true]; exact joinSpec_globals_sorted ((h.wf.tgt p).published s.ign) _ _
+    · simp [ha]
+
+/-- the reserved sizes are exactly filled: the `assert(size_<maxSize_)` of `InterfaceInformation::add` never fires
+    and no reserved slot stays unused -/
+theorem add_within_reserved (send : Bool) (S T : Nat → Bool) (l : List RIdx) :
+    (infoOf send S T l).idx.length = (infoOf send S T l).maxSize := by
+  simp [infoOf_eq]
+
+/-- **interface_neighbours.**  After `strip`, `q` is a key of `p`'s interface map iff something is sent to or
+    received from `q`; the keys ascend strictly. -/
+theorem interface_neighbours (s : Setting) (p q : Nat) :
+    (q ∈ (s.iface p).map (·.1) ↔ (s.sendL p q ≠ [] ∨ s.recvL p q ≠ [])) ∧
+    ((s.iface p).map (·.1)).Pairwise (· < ·) := by
+  refine ⟨?_, keys_interfaceOf_sorted _ _ _ _ _⟩
+  simp only [Setting.iface, mem_keys_interfaceOf, Setting.sendL, Setting.recvL, sendL, recvL]
+  by_cases ha : admits s.sys p q
+  · simp only [ha, if_true, true_and, infoOf_eq, Info.size, List.length_map, sendEntries, recvEntries]
+    constructor
+    · intro hne
+      by_cases h1 : (sendSpec s.ign s.sys p q).filter (passes true s.S s.T) = []
+      · right; intro h2; apply hne; simp [h1, h2]
+      · left; exact h1
+    · rintro (h1 | h1) h2
+      · exact h1 (List.eq_nil_of_length_eq_zero h2.1)
+      · exact h1 (List.eq_nil_of_length_eq_zero h2.2)
+  · simp [ha]
+
+/-- **interface_mirror.**  The `k`-th entry `p` sends to `q` and the `k`-th entry `q` receives from `p` denote the
+    same global index (and the lists have the same length). -/
+theorem interface_mirror (s : Setting) (h : s.OK) {p q : Nat} (hp : p < s.sys.P) (hq : q < s.sys.P) :
+    (s.sendL p q).map (·.g) = (s.recvL q p).map (·.g) ∧
+    ((s.iface p).get q).1.idx.length = ((s.iface q).get p).2.idx.length := by
+  have hm := L_mirror (ign := s.ign) (S := s.S) (T := s.T) h.wf hp hq
+  refine ⟨hm, ?_⟩
+  rw [(interface_spec s h p q).1, (interface_spec s h q p).2.1, List.length_map, List.length_map]
+  have := congrArg List.length hm
+  simpa [Setting.sendL, Setting.recvL] using this
+
+/-- `Selection`: the local indices of the entries with attribute in the set, in index set order -/
+theorem selection_spec (S : Nat → Bool) (set : List Entry) (l : Nat) :
+    l ∈ selection S set ↔ ∃ e ∈ set, S e.a = true ∧ e.l = l := by
+  simp [selection, List.mem_map, List.mem_filter, and_assoc]
+
+/-! ## 2. Message layout -/
+
+/-- **slice_layout_disjoint_cover** (send side).  The message for `q` is the slice of the gathered send buffer that
+    holds exactly the values gathered for `q`'s send list in interface order, and the send buffer is the
+    concatenation of these messages over the neighbours in rank order: the slices are disjoint and cover the buffer. -/
+theorem slice_layout_disjoint_cover (s : Setting) (h : s.OK) {Val} (gat : Nat → Nat → Val) (p : Nat) :
+    (∀ q, (s.comm p).msgTo true ((s.comm p).sendBuf true gat) q =
+        (slotsOf s.blk (s.sendL p q)).map fun sl => gat sl.1 sl.2) ∧
+    (s.comm p).sendBuf true gat =
+      ((s.iface p).map (·.1)).flatMap fun q => (s.comm p).msgTo true ((s.comm p).sendBuf true gat) q := by
+  have hg := h.good
+  constructor
+  · intro q
+    rw [Setting.comm, Net.msgTo_eq _ hg, sendSlots_eq h.wf h.sizes]; rfl
+  · have hmsg : ∀ q, (s.comm p).msgTo true ((s.comm p).sendBuf true gat) q =
+        ((netOf s.ign s.S s.T s.sys s.sz s.csS s.csT).sendSlots p q).map fun sl => gat sl.1 sl.2 :=
+      fun q => Net.msgTo_eq _ hg gat p q
+    simp only [hmsg, List.flatMap_map]
+    simp only [Setting.comm, Net.comm, buildComm, Comm.sendBuf, Comm.csSend, if_true, gatherBuf, sendSide,
+      Setting.iface, Net.sendSlots, netOf]
+    apply flatMap_congr_mem
+    intro e he
+    have hk : Keys (interfaceOf s.ign s.S s.T s.sys p) := keys_interfaceOf_sorted _ _ _ _ _
+    rw [get_of_find_some ((mem_iff_find _ hk e).1 he)]
+
+/-- **slice_layout_disjoint_cover** (receive side): the regions into which the receives of two different
+    neighbours are posted do not overlap and lie inside the receive buffer. -/
+theorem recv_regions_disjoint (s : Setting) (q : Nat) {a b : Nat} {ma mb} (hab : a < b)
+    (ha : (s.comm q).msg a = some ma) (hb : (s.comm q).msg b = some mb) :
+    ma.2.start + ma.2.size / s.sz ≤ mb.2.start ∧ mb.2.start + mb.2.size / s.sz ≤ (s.comm q).recvElems true ∧
+    ma.1.start + ma.1.size / s.sz ≤ mb.1.start ∧ mb.1.start + mb.1.size / s.sz ≤ (s.comm q).sendElems true := by
+  have hk : ∀ p, Keys ((netOf s.ign s.S s.T s.sys s.sz s.csS s.csT).ifs p) :=
+    fun p => keys_interfaceOf_sorted _ _ _ _ _
+  simp only [Setting.comm] at ha hb ⊢
+  rw [Net.msg_eq _ hk] at ha hb
+  cases hfa : ((netOf s.ign s.S s.T s.sys s.sz s.csS s.csT).ifs q).find? (fun e => e.1 == a) with
+  | none => simp [hfa] at ha
+  | some ea =>
+    cases hfb : ((netOf s.ign s.S s.T s.sys s.sz s.csS s.csT).ifs q).find? (fun e => e.1 == b) with
+    | none => simp [hfb] at hb
+    | some eb =>
+      simp only [hfa, hfb, Option.bind_some] at ha hb
+      split at ha
+      · split at hb
+        · cases ha; cases hb
+          simp only
+          by_cases hz : s.sz = 0
+          · simp only [netOf, hz, Nat.mul_zero, Nat.div_zero, Nat.add_zero]
+            refine ⟨?_, ?_, ?_, ?_⟩
+            · have := pre_mono (fun e => sizeCalc (s.csT q) e.2.2) _ (hk q) hab hfa ⟨eb, hfb⟩; simp only [netOf] at this; omega
+            · have := pre_le_total (fun e => sizeCalc (s.csT q) e.2.2) _ hfb
+              simp only [Comm.recvElems, Comm.sendElems, Net.comm, buildComm, netOf, Bool.not_true, Bool.false_eq_true,
+                if_false] at this ⊢; omega
+            · have := pre_mono (fun e => sizeCalc (s.csS q) e.2.1) _ (hk q) hab hfa ⟨eb, hfb⟩; simp only [netOf] at this; omega
+            · have := pre_le_total (fun e => sizeCalc (s.csS q) e.2.1) _ hfb
+              simp only [Comm.sendElems, Net.comm, buildComm, netOf, if_true] at this ⊢; omega
+          · have hpos : 0 < s.sz := Nat.pos_of_ne_zero hz
+            simp only [netOf, Nat.mul_div_cancel _ hpos]
+            refine ⟨?_, ?_, ?_, ?_⟩
+            · have := pre_mono (fun e => sizeCalc (s.csT q) e.2.2) _ (hk q) hab hfa ⟨eb, hfb⟩; simpa only [netOf] using this
+            · have := pre_le_total (fun e => sizeCalc (s.csT q) e.2.2) _ hfb
+              simpa only [Comm.recvElems, Comm.sendElems, Net.comm, buildComm, netOf, Bool.not_true, Bool.false_eq_true,
+                if_false] using this
+            · have := pre_mono (fun e => sizeCalc (s.csS q) e.2.1) _ (hk q) hab hfa ⟨eb, hfb⟩; simpa only [netOf] using this
+            · have := pre_le_total (fun e => sizeCalc (s.csS q) e.2.1) _ hfb
+              simpa only [Comm.sendElems, Net.comm, buildComm, netOf, if_true] using this
+        · cases hb
+      · cases ha
+
+/-! ## 3. Delivery -/
+
+/-- what the property expects process `q` to scatter in a forward communication: for every process `p` and every
+    shared entry (`k`-th of `sendL p q` = `k`-th of `recvL q p`, the same global index by `interface_mirror`) and
+    every component `j`, the value `p` gathered at its local index, delivered to `q`'s local index -/
+def Setting.expectedCalls {Val} (s : Setting) (gat : Nat → Nat → Nat → Val) (q : Nat) : List (Val × Nat × Nat) :=
+  (List.range s.sys.P).flatMap fun p => pairExpected s.blk (gat p) (s.sendL p q) (s.recvL q p)
+
+/-- the same list with the tag (sender, global index, component) of every call -/
+def Setting.expectedTagged {Val} (s : Setting) (gat : Nat → Nat → Nat → Val) (q : Nat) :
+    List ((Nat × Int × Nat) × (Val × Nat × Nat)) :=
+  (List.range s.sys.P).flatMap fun p => pairExpectedTagged s.blk (gat p) p (s.sendL p q) (s.recvL q p)
+
+/-- admissible schedules on `q`: the messages land in any order (`arr`, no process twice), `MPI_Waitany` reports
+    exactly the posted receives, each once, in any order (`order`), a message is reported only after it landed -/
+structure Sched (s : Setting) (fwd : Bool) (q : Nat) (arr order : List Nat) : Prop where
+  nodup : arr.Nodup
+  bound : ∀ p ∈ arr, p < s.sys.P
+  landed : ∀ p ∈ order, p ∈ arr
+  complete : order.Perm ((s.comm q).postedRecvs fwd)
+
+/-- **forward_calls.**  The scatter calls made on `q` during one `forward` are, as a multiset, exactly the expected
+    ones: every value gathered at a source entry reaches the scatter of its matching target entry, nothing else is
+    scattered. -/
+theorem forward_calls (s : Setting) (h : s.OK) {Val} (gat : Nat → Nat → Nat → Val) (junk : Val) {q : Nat}
+    (hq : q < s.sys.P) {arr order : List Nat} (hs : Sched s true q arr order) :
+    (roundCallsAt s.comm true gat junk q arr order).Perm (s.expectedCalls gat q) := by
+  have hg := h.good
+  have heq := Net.roundCallsAt_eq _ hg gat junk (q := q) hq arr order hs.nodup hs.bound hs.landed
+  have hcomm : s.comm = (netOf s.ign s.S s.T s.sys s.sz s.csS s.csT).comm := rfl
+  rw [hcomm, heq]
+  refine (List.Perm.flatMap_right _ hs.complete).trans (List.Perm.of_eq ?_)
+  rw [hcomm, Net.postedRecvs_eq _ hg]
+  rw [filter_flatMap_of_nil]
+  · apply flatMap_congr_mem
+    intro p hp
+    exact pairCalls_eq h.wf h.sizes gat (List.mem_range.mp hp) hq
+  · intro p hp
+    have h0 : ((netOf s.ign s.S s.T s.sys s.sz s.csS s.csT).recvSlots q p).length = 0 := by simpa using hp
+    simp only [Net.pairCalls, List.eq_nil_of_length_eq_zero h0, List.zip_nil_right]
+
+/-- **forward_exactly_once.**  The expected calls are indexed by (sender, global index, component) without
+    repetition, and the calls made are a permutation of them: each shared entry's value is scattered exactly once. -/
+theorem forward_exactly_once (s : Setting) (h : s.OK) {Val} (gat : Nat → Nat → Nat → Val) (junk : Val) {q : Nat}
+    (hq : q < s.sys.P) {arr order : List Nat} (hs : Sched s true q arr order) :
+    ((s.expectedTagged gat q).map (·.1)).Nodup ∧
+    (roundCallsAt s.comm true gat junk q arr order).Perm ((s.expectedTagged gat q).map (·.2)) := by
+  constructor
+  · exact tagged_nodup s.blk gat s.sys.P (fun p => s.sendL p q) (fun p => s.recvL q p)
+      (fun p => (interface_spec s h p q).2.2.2.2.1)
+  · have : (s.expectedTagged gat q).map (·.2) = s.expectedCalls gat q := by
+      simp only [Setting.expectedTagged, Setting.expectedCalls, List.map_flatMap, pairExpectedTagged_snd]
+    rw [this]
+    exact forward_calls s h gat junk hq hs
+
+/-- **order_irrelevant_calls.**  The multiset of scatter calls does not depend on arrival and completion order. -/
+theorem order_irrelevant_calls (s : Setting) (h : s.OK) {Val} (gat : Nat → Nat → Nat → Val) (junk : Val) {q : Nat}
+    (hq : q < s.sys.P) {arr order arr' order' : List Nat} (hs : Sched s true q arr order) (hs' : Sched s true q arr' order') :
+    (roundCallsAt s.comm true gat junk q arr order).Perm (roundCallsAt s.comm true gat junk q arr' order') :=
+  (forward_calls s h gat junk hq hs).trans (forward_calls s h gat junk hq hs').symm
+
+/-- **backward_is_forward_swapped.**  A backward communication is literally a forward communication of the
+    setting with the index sets and the attribute sets exchanged (same schedules). -/
+theorem backward_is_forward_swapped (s : Setting) {Val} (gat : Nat → Nat → Nat → Val) (junk : Val) (q : Nat)
+    (arr order : List Nat) :
+    roundCallsAt s.comm false gat junk q arr order = roundCallsAt s.swap.comm true gat junk q arr order ∧
+    (s.comm q).postedRecvs false = (s.swap.comm q).postedRecvs true ∧
+    (s.comm q).postedSends false = (s.swap.comm q).postedSends true := by
+  have hc : ∀ p, (s.comm p).swap = s.swap.comm p := fun p => swap_comm s.ign s.S s.T s.sys s.sz s.csS s.csT p
+  refine ⟨?_, ?_, ?_⟩
+  · rw [roundCallsAt_swap]; simp only [hc]
+  · rw [← hc, Comm.swap_postedRecvs]
+  · rw [← hc, Comm.swap_postedSends]
+
+theorem Sched.swap {s : Setting} {q : Nat} {arr order : List Nat} (hs : Sched s false q arr order) :
+    Sched s.swap true q arr order :=
+  ⟨hs.nodup, hs.bound, hs.landed, by rw [← (backward_is_forward_swapped s (fun _ _ _ => ()) () q [] []).2.1]; exact hs.complete⟩
+
+/-- **backward_calls.**  In a backward communication the values gathered at the *target* entries reach the scatter
+    of the matching *source* entries, exactly once each. -/
+theorem backward_calls (s : Setting) (h : s.OK) {Val} (gat : Nat → Nat → Nat → Val) (junk : Val) {q : Nat}
+    (hq : q < s.sys.P) {arr order : List Nat} (hs : Sched s false q arr order) :
+    (roundCallsAt s.comm false gat junk q arr order).Perm
+      ((List.range s.sys.P).flatMap fun p => pairExpected s.blk (gat p) (s.recvL p q) (s.sendL q p)) := by
+  rw [(backward_is_forward_swapped s gat junk q arr order).1]
+  have := forward_calls s.swap h.swap gat junk (q := q) hq hs.swap
+  have hP : s.sys.swap.P = s.sys.P := rfl
+  simpa only [Setting.expectedCalls, Setting.sendL, Setting.recvL, Setting.swap, swap_sendL, swap_recvL, hP] using this
+
+/-! ## 4. Policies -/
+
+/-- **forward_copy_spec.**  Copy policy, every target entry of `q` has at most one sender: after `forward` every
+    target entry that has a sender equals the value gathered at its source entry, all other entries of the target
+    container are unchanged — for every schedule. -/
+theorem forward_copy_spec (s : Setting) (h : s.OK) {Val Data} {gather : Data → Nat → Nat → Val}
+    {scatter : Data → Val → Nat → Nat → Data} (hst : CopyStore gather scatter) (junk : Val)
+    (w : Nat → Cont Data) (arr order : Nat → List Nat) {q : Nat} (hq : q < s.sys.P) (hs : Sched s true q (arr q) (order q))
+    (hsingle : ((s.expectedCalls (fun p => gather ((w p).get false)) q).map (·.2)).Nodup) :
+    let w' := worldRound s.comm gather scatter junk true arr order w
+    (∀ c ∈ s.expectedCalls (fun p => gather ((w p).get false)) q, gather ((w' q).get true) c.2.1 c.2.2 = c.1) ∧
+    (∀ l j, (l, j) ∉ (s.expectedCalls (fun p => gather ((w p).get false)) q).map (·.2) →
+        gather ((w' q).get true) l j = gather ((w q).get true) l j) := by
+  intro w'
+  have hperm := forward_calls s h (fun p => gather ((w p).get false)) junk hq hs
+  have hnd : ((roundCallsAt s.comm true (fun p => gather ((w p).get false)) junk q (arr q) (order q)).map (·.2)).Nodup :=
+    ((hperm.map (·.2)).nodup_iff).2 hsingle
+  simp only [w', worldRound, Cont.get_set, Bool.not_true]
+  constructor
+  · intro c hc
+    exact applyCalls_copy_mem hst _ _ hnd c (hperm.mem_iff.2 hc)
+  · intro l j hn
+    apply applyCalls_copy_other hst
+    intro hm
+    exact hn ((hperm.map (·.2)).mem_iff.1 hm)
+
+/-- **forward_add_spec.**  Accumulating policy over a commutative, associative `add`: after `forward` every target
+    entry holds its old value plus the values of all its senders (sum over the expected calls aimed at it), for every
+    schedule. -/
+theorem forward_add_spec (s : Setting) (h : s.OK) {Val Data} {add : Val → Val → Val}
+    (hcomm : ∀ a b, add a b = add b a) (hassoc : ∀ a b c, add (add a b) c = add a (add b c))
+    {gather : Data → Nat → Nat → Val} {scatter : Data → Val → Nat → Nat → Data} (hst : AddStore add gather scatter)
+    (junk : Val) (w : Nat → Cont Data) (arr order : Nat → List Nat) {q : Nat} (hq : q < s.sys.P)
+    (hs : Sched s true q (arr q) (order q)) (l j : Nat) :
+    gather ((worldRound s.comm gather scatter junk true arr order w q).get true) l j =
+      (((s.expectedCalls (fun p => gather ((w p).get false)) q).filter fun c => c.2 == (l, j)).map (·.1)).foldl add
+        (gather ((w q).get true) l j) := by
+  have hperm := forward_calls s h (fun p => gather ((w p).get false)) junk hq hs
+  simp only [worldRound, Cont.get_set, Bool.not_true]
+  rw [applyCalls_add hst]
+  exact foldl_add_perm hcomm hassoc ((hperm.filter _).map _) _
+
+/-- **backward_copy_spec** / **backward_add_spec**: the same with the roles exchanged (values gathered at target
+    entries arrive at the source entries). -/
+theorem backward_add_spec (s : Setting) (h : s.OK) {Val Data} {add : Val → Val → Val}
+    (hcomm : ∀ a b, add a b = add b a) (hassoc : ∀ a b c, add (add a b) c = add a (add b c))
+    {gather : Data → Nat → Nat → Val} {scatter : Data → Val → Nat → Nat → Data} (hst : AddStore add gather scatter)
+    (junk : Val) (w : Nat → Cont Data) (arr order : Nat → List Nat) {q : Nat} (hq : q < s.sys.P)
+    (hs : Sched s false q (arr q) (order q)) (l j : Nat) :
+    gather ((worldRound s.comm gather scatter junk false arr order w q).get false) l j =
+      ((((List.range s.sys.P).flatMap fun p => pairExpected s.blk (gather ((w p).get true)) (s.recvL p q) (s.sendL q p)).filter
+          fun c => c.2 == (l, j)).map (·.1)).foldl add (gather ((w q).get false) l j) := by
+  have hperm := backward_calls s h (fun p => gather ((w p).get true)) junk hq hs
+  simp only [worldRound, Cont.get_set, Bool.not_false]
+  rw [applyCalls_add hst]
+  exact foldl_add_perm hcomm hassoc ((hperm.filter _).map _) _
+
+theorem backward_copy_spec (s : Setting) (h : s.OK) {Val Data} {gather : Data → Nat → Nat → Val}
+    {scatter : Data → Val → Nat → Nat → Data} (hst : CopyStore gather scatter) (junk : Val)
+    (w : Nat → Cont Data) (arr order : Nat → List Nat) {q : Nat} (hq : q < s.sys.P) (hs : Sched s false q (arr q) (order q))
+    (hsingle : (((List.range s.sys.P).flatMap fun p =>
+        pairExpected s.blk (gather ((w p).get true)) (s.recvL p q) (s.sendL q p)).map (·.2)).Nodup) :
+    let w' := worldRound s.comm gather scatter junk false arr order w
+    (∀ c ∈ (List.range s.sys.P).flatMap fun p => pairExpected s.blk (gather ((w p).get true)) (s.recvL p q) (s.sendL q p),
+        gather ((w' q).get false) c.2.1 c.2.2 = c.1) ∧
+    (∀ l j, (l, j) ∉ ((List.range s.sys.P).flatMap fun p =>
+          pairExpected s.blk (gather ((w p).get true)) (s.recvL p q) (s.sendL q p)).map (·.2) →
+        gather ((w' q).get false) l j = gather ((w q).get false) l j) := by
+  intro w'
+  have hperm := backward_calls s h (fun p => gather ((w p).get true)) junk hq hs
+  have hnd := ((hperm.map (·.2)).nodup_iff).2 hsingle
+  simp only [w', worldRound, Cont.get_set, Bool.not_false]
+  constructor
+  · intro c hc
+    exact applyCalls_copy_mem hst _ _ hnd c (hperm.mem_iff.2 hc)
+  · intro l j hn
+    apply applyCalls_copy_other hst
+    intro hm
+    exact hn ((hperm.map (·.2)).mem_iff.1 hm)
+
+/-! ## 5. Termination at the message level, repeated use -/
+
+/-- **recv_posted_iff_send_posted.**  In a forward communication `q` posts a receive for `p` iff `p` posts a send
+    to `q`, and the message has exactly the posted length; the same holds for backward.  Hence every `MPI_Irecv` is
+    matched by exactly one `MPI_Issend` of the same size and vice versa: the `MPI_Waitany` loop receives its
+    `numberOfRealRecvRequests` completions and all sends complete. -/
+theorem recv_posted_iff_send_posted (s : Setting) (h : s.OK) (fwd : Bool) {Val} (gat : Nat → Nat → Val)
+    {p q : Nat} (hp : p < s.sys.P) (hq : q < s.sys.P) :
+    (p ∈ (s.comm q).postedRecvs fwd ↔ q ∈ (s.comm p).postedSends fwd) ∧
+    (∀ m, (s.comm q).msg p = some m →
+        ((s.comm p).msgTo fwd ((s.comm p).sendBuf fwd gat) q).length * s.sz = (recvMsgInfo fwd m).size) := by
+  -- forward case for an arbitrary OK setting
+  have fwdCase : ∀ (t : Setting), t.OK → p < t.sys.P → q < t.sys.P →
+      (p ∈ (t.comm q).postedRecvs true ↔ q ∈ (t.comm p).postedSends true) ∧
+      (∀ m, (t.comm q).msg p = some m →
+          ((t.comm p).msgTo true ((t.comm p).sendBuf true gat) q).length * t.sz = (recvMsgInfo true m).size) := by
+    intro t ht hp hq
+    have hg := ht.good
+    constructor
+    · rw [Setting.comm, Setting.comm, Net.mem_postedRecvs _ hg, Net.mem_postedSends _ hg, hg.mirror p q hp hq]
+    · intro m hm
+      rw [Setting.comm, Net.msgTo_length _ hg gat hp hq]
+      rw [Setting.comm, Net.msg_eq _ hg.keys] at hm
+      cases hf : ((netOf t.ign t.S t.T t.sys t.sz t.csS t.csT).ifs q).find? (fun e => e.1 == p) with
+      | none => simp [hf] at hm
+      | some e =>
+        simp only [hf, Option.bind_some] at hm
+        split at hm
+        · cases hm
+          simp only [recvMsgInfo, if_true, Net.recvSlots_length_of_find _ hf]
+          rfl
+        · cases hm
+  cases fwd with
+  | true => exact fwdCase s h hp hq
+  | false =>
+    have hc : ∀ p, (s.comm p).swap = s.swap.comm p := fun p => swap_comm s.ign s.S s.T s.sys s.sz s.csS s.csT p
+    have := fwdCase s.swap h.swap hp hq
+    rw [← hc, ← hc, Comm.swap_postedRecvs, Comm.swap_postedSends, Comm.swap_sendBuf] at this
+    refine ⟨this.1, ?_⟩
+    intro m hm
+    have h2 := this.2 (m.2, m.1) (by rw [Comm.swap_msg, hm]; rfl)
+    rw [Comm.swap_msgTo] at h2
+    simpa [recvMsgInfo, Setting.swap, Comm.swap] using h2
+
+/-- **reuse.**  A communicator carries no state from one communication to the next: a sequence of `forward` /
+    `backward` calls is the sequence of the single communications, each delivering (by `forward_calls` /
+    `backward_calls`, which hold for *every* container state `w`) the values present before it. -/
+theorem reuse (s : Setting) {Val Data} (gather : Data → Nat → Nat → Val) (scatter : Data → Val → Nat → Nat → Data)
+    (junk : Val) (arr order : Bool → Nat → List Nat) (d1 d2 : Bool) (w : Nat → Cont Data) :
+    runRounds s.comm gather scatter junk arr order [d1, d2] w =
+      worldRound s.comm gather scatter junk d2 (arr d2) (order d2)
+        (worldRound s.comm gather scatter junk d1 (arr d1) (order d1) w) ∧
+    ∀ (ds : List Bool) (d : Bool), runRounds s.comm gather scatter junk arr order (ds ++ [d]) w =
+      worldRound s.comm gather scatter junk d (arr d) (order d) (runRounds s.comm gather scatter junk arr order ds w) := by
+  refine ⟨rfl, ?_⟩
+  intro ds d
+  induction ds generalizing w with
+  | nil => rfl
+  | cons x xs ih => simp only [List.cons_append, runRounds]; exact ih _
+
+/-- second `forward` on the same communicator: its calls are the expected ones for the state the first one left -/
+theorem reuse_forward_twice (s : Setting) (h : s.OK) {Val Data} (gather : Data → Nat → Nat → Val)
+    (scatter : Data → Val → Nat → Nat → Data) (junk : Val) (arr order : Nat → List Nat) (w : Nat → Cont Data) {q : Nat}
+    (hq : q < s.sys.P) (hs : Sched s true q (arr q) (order q)) :
+    let w1 := worldRound s.comm gather scatter junk true arr order w
+    (roundCallsAt s.comm true (fun p => gather ((w1 p).get false)) junk q (arr q) (order q)).Perm
+      (s.expectedCalls (fun p => gather ((w1 p).get false)) q) :=
+  forward_calls s h _ junk hq hs
+
+/-! ## 6. DatatypeCommunicator variant -/
+
+/-- **datatype_calls.**  The index lists behind the MPI datatypes of `DatatypeCommunicator` are the (unstripped)
+    interface lists; moving, for every neighbour `p` in rank order, the entries of `p`'s send type into the
+    entries of `q`'s receive type amounts exactly to the expected calls of a forward resp. backward communication
+    (as a list: there is no completion order to speak of, `MPI_Waitall`). -/
+theorem datatype_calls (s : Setting) (h : s.OK) {Val} (gat : Nat → Nat → Nat → Val) {q : Nat} (hq : q < s.sys.P) :
+    dtCalls (s.csT q) gat s.csS (dtNeighbours (rawInterfaceOf s.ign s.S s.T s.sys) true q) = s.expectedCalls gat q ∧
+    dtCalls (s.csS q) gat s.csT (dtNeighbours (rawInterfaceOf s.ign s.S s.T s.sys) false q) =
+      (List.range s.sys.P).flatMap fun p => pairExpected s.blk (gat p) (s.recvL p q) (s.sendL q p) :=
+  ⟨dtCalls_forward h.wf h.sizes gat hq, dtCalls_backward h.wf h.sizes gat hq⟩
+
+/-- **datatype_copy_spec.**  With non-overlapping receive types (every target entry has one sender — otherwise the
+    MPI calls are erroneous) a forward communication leaves every target entry with a sender equal to its source and
+    every other entry unchanged. -/
+theorem datatype_copy_spec (s : Setting) (h : s.OK) {Val Data} {gather : Data → Nat → Nat → Val}
+    {scatter : Data → Val → Nat → Nat → Data} (hst : CopyStore gather scatter) (w : Nat → Cont Data) {q : Nat}
+    (hq : q < s.sys.P) (hsingle : ((s.expectedCalls (fun p => gather ((w p).get false)) q).map (·.2)).Nodup) :
+    let d' := applyCalls scatter ((w q).get true)
+      (dtCalls (s.csT q) (fun p => gather ((w p).get false)) s.csS (dtNeighbours (rawInterfaceOf s.ign s.S s.T s.sys) true q))
+    (∀ c ∈ s.expectedCalls (fun p => gather ((w p).get false)) q, gather d' c.2.1 c.2.2 = c.1) ∧
+    (∀ l j, (l, j) ∉ (s.expectedCalls (fun p => gather ((w p).get false)) q).map (·.2) →
+        gather d' l j = gather ((w q).get true) l j) := by
+  intro d'
+  simp only [d', (datatype_calls s h _ hq).1]
+  exact ⟨fun c hc => applyCalls_copy_mem hst _ _ hsingle c hc, fun l j hn => applyCalls_copy_other hst _ _ l j hn⟩
+
+/-! ## Non-vacuity: the hypotheses are satisfiable by non-trivial decompositions
+
+`exSys`: three processes, one index set each (global, local, attribute, public); attributes 0 = owner,
+1 = overlap.  Process 0 owns 0,1 and holds 2 as overlap; process 1 owns 2,3 and holds 1 as overlap; process 2
+holds 1 and 2 as overlap.  `ex`: owner → overlap, scalar payload.  `exBack`: overlap → owner (two senders per
+owner entry: the accumulation case).  `exRed`: two processes, two index sets each (redistribution), process 0
+keeps global index 0 (message to itself), three components per index. -/
+
+def exSys : System :=
+  { P := 3,
+    rank := fun p => match p with
+      | 0 => { src := [⟨0, 0, 0, true⟩, ⟨1, 1, 0, true⟩, ⟨2, 2, 1, true⟩], tgt := [], two := false }
+      | 1 => { src := [⟨1, 0, 1, true⟩, ⟨2, 1, 0, true⟩, ⟨3, 2, 0, true⟩], tgt := [], two := false }
+      | 2 => { src := [⟨1, 0, 1, true⟩, ⟨2, 1, 1, true⟩], tgt := [], two := false }
+      | _ => { src := [], tgt := [], two := false } }
+
+def ex : Setting :=
+  { ign := false, S := fun a => a == 0, T := fun a => a == 1, sys := exSys, sz := 8,
+    csS := fun _ _ => 1, csT := fun _ _ => 1, blk := fun _ => 1 }
+
+def exBack : Setting := { ex with S := fun a => a == 1, T := fun a => a == 0 }
+
+theorem exSys_wf : WF exSys := by
+  constructor <;> intro p <;> match p with
+  | 0 => simp [exSys, StrictSorted, RankData.tgtSet]
+  | 1 => simp [exSys, StrictSorted, RankData.tgtSet]
+  | 2 => simp [exSys, StrictSorted, RankData.tgtSet]
+  | n + 3 => simp [exSys, StrictSorted, RankData.tgtSet]
+
+theorem ex_ok : ex.OK := ⟨exSys_wf, by decide, ⟨fun _ _ _ => rfl, fun _ _ _ => rfl⟩⟩
+theorem exBack_ok : exBack.OK := ⟨exSys_wf, by decide, ⟨fun _ _ _ => rfl, fun _ _ _ => rfl⟩⟩
+
+/-- interface_spec / interface_neighbours / interface_mirror: non-empty, asymmetric interfaces -/
+example : ex.iface 0 = [(1, ⟨1, [1]⟩, ⟨1, [2]⟩), (2, ⟨1, [1]⟩, ⟨0, []⟩)] := by decide
+example : ex.iface 2 = [(0, ⟨0, []⟩, ⟨1, [0]⟩), (1, ⟨0, []⟩, ⟨1, [1]⟩)] := by decide
+example : (ex.sendL 0 2).map (·.g) = [1] ∧ (ex.recvL 2 0).map (·.g) = [1] := by decide
+/-- forward_calls / forward_exactly_once / order_irrelevant_calls: two admissible schedules that differ -/
+example : (ex.comm 2).postedRecvs true = [0, 1] := by decide
+example : Sched ex true 2 [1, 0] [1, 0] := ⟨by decide, by decide, by decide, by decide⟩
+example : Sched ex true 2 [0, 1] [0, 1] := ⟨by decide, by decide, by decide, by decide⟩
+example : ex.expectedCalls (fun p l j => (p, l, j)) 2 = [((0, 1, 0), 0, 0), ((1, 1, 0), 1, 0)] := by decide
+/-- forward_copy_spec: every target entry of process 2 has one sender -/
+example : ((ex.expectedCalls (fun p l j => (p, l, j)) 2).map (·.2)).Nodup := by decide
+/-- forward_add_spec: owner entry 1 of process 0 receives from processes 1 and 2 -/
+example : exBack.expectedCalls (fun p l j => (p, l, j)) 0 = [((1, 0, 0), 1, 0), ((2, 0, 0), 1, 0)] := by decide
+/-- backward_calls / backward_*_spec / recv_posted_iff_send_posted with `fwd = false` -/
+example : (ex.comm 0).postedRecvs false = [1, 2] ∧ (ex.comm 1).postedSends false = [0] := by decide
+example : Sched ex false 0 [2, 1] [1, 2] := ⟨by decide, by decide, by decide, by decide⟩
+
+/-- datatype_calls / datatype_copy_spec: the neighbours of process 2 with the index lists behind the datatypes -/
+example : dtNeighbours (rawInterfaceOf ex.ign ex.S ex.T ex.sys) true 2 = [(0, ⟨1, [1]⟩, ⟨1, [0]⟩), (1, ⟨1, [1]⟩, ⟨1, [1]⟩)] := by
+  decide
+
+/-- a container with read-after-write semantics: functions from (local index, component) to values -/
+def fnScatterCopy {Val} (d : Nat → Nat → Val) (v : Val) (l j : Nat) : Nat → Nat → Val :=
+  fun l' j' => if l' = l ∧ j' = j then v else d l' j'
+def fnScatterAdd (d : Nat → Nat → Int) (v : Int) (l j : Nat) : Nat → Nat → Int :=
+  fun l' j' => if l' = l ∧ j' = j then d l j + v else d l' j'
+example {Val} : CopyStore (fun (d : Nat → Nat → Val) => d) fnScatterCopy := ⟨fun _ _ _ _ _ _ => rfl⟩
+example : AddStore (· + ·) (fun (d : Nat → Nat → Int) => d) fnScatterAdd := ⟨fun _ _ _ _ _ _ => rfl⟩
+
+def exRedSys : System :=
+  { P := 2,
+    rank := fun p => match p with
+      | 0 => { src := [⟨0, 1, 0, true⟩, ⟨1, 0, 0, true⟩], tgt := [⟨0, 0, 0, true⟩, ⟨2, 1, 0, true⟩], two := true }
+      | 1 => { src := [⟨2, 0, 0, true⟩], tgt := [⟨1, 0, 0, true⟩], two := true }
+      | _ => { src := [], tgt := [], two := true } }
+
+def exRed : Setting :=
+  { ign := true, S := fun a => a == 0, T := fun a => a == 0, sys := exRedSys, sz := 8,
+    csS := fun _ _ => 3, csT := fun _ _ => 3, blk := fun _ => 3 }
+
+theorem exRed_ok : exRed.OK := by
+  refine ⟨?_, by decide, ⟨fun _ _ _ => rfl, fun _ _ _ => rfl⟩⟩
+  constructor <;> intro p <;> match p with
+  | 0 => simp [exRed, exRedSys, StrictSorted, RankData.tgtSet]
+  | 1 => simp [exRed, exRedSys, StrictSorted, RankData.tgtSet]
+  | n + 2 => simp [exRed, exRedSys, StrictSorted, RankData.tgtSet]
+
+/-- two index sets: process 0 is its own neighbour; multi-component slices -/
+example : exRed.iface 0 = [(0, ⟨1, [1]⟩, ⟨1, [0]⟩), (1, ⟨1, [0]⟩, ⟨1, [1]⟩)] := by decide
+example : (exRed.comm 0).msgs = [(0, ⟨0, 24⟩, ⟨0, 24⟩), (1, ⟨3, 24⟩, ⟨3, 24⟩)] := by decide
+example : Sched exRed true 0 [1, 0] [0, 1] := ⟨by decide, by decide, by decide, by decide⟩
+
 end DV.C05
